@@ -121,7 +121,7 @@ def overlap(ctx):
         return err, mx[0]
 
     for shape in ("independent", "fan-out", "store-writes"):
-        for w in (2, 3, 5):
+        for w in (2, 3, 5, 33, 40) if shape == "independent" else (2, 3, 5):
             for scheduler in (None, "random"):
                 ctx.case(("overlap", shape, w, scheduler))
                 ctx.count("overlap_shape", shape)
